@@ -42,7 +42,7 @@ TVerify ==
          uid == HB(Ev.uid)
          msg == HB(Ev.msg)
      IN \E c \in {[NoCand EXCEPT !.kind = <<"logged", "", 0, 0>>, !.pub = q, !.gm = gm, !.uid = uid, !.msg = msg,
-                             !.e = IF gm THEN S!Digest(EffUid(uid), q, msg) ELSE HB(Ev.dig),
+                             !.e = IF gm THEN DigestOf(EffUid(uid), q, msg) ELSE HB(Ev.dig),
                              !.bytes = HB(Ev.sig), !.ints = VEntryInts(Ev.entry),
                              !.rneg = Ev.rneg, !.r = BN!Norm(HB(Ev.r)), !.sneg = Ev.sneg, !.s = BN!Norm(HB(Ev.s))]} :
         /\ Ev.got = Accept(c, Ev.entry)
